@@ -139,7 +139,7 @@ func family() (batch, incr []rescorr.Case) {
 		// one module with several import statements of ONE module name (RFC 7950 7.1.5: "multiple revisions of the
 		// same module can be imported, provided that different prefixes are used"): every statement denotes its own
 		// revision (seeded change C13-m21 linked the imports of a module once per module NAME); two statement orders
-		"multi.yang": `module multi { yang-version 1.1; namespace "urn:multi"; prefix mu; import lib { prefix la; revision-date 2020-02-02; } import lib { prefix lb; revision-date 2019-01-01; } import lib { prefix lc; } ` + multiBody + ` }`,
+		"multi.yang":  `module multi { yang-version 1.1; namespace "urn:multi"; prefix mu; import lib { prefix la; revision-date 2020-02-02; } import lib { prefix lb; revision-date 2019-01-01; } import lib { prefix lc; } ` + multiBody + ` }`,
 		"multi2.yang": `module multi2 { yang-version 1.1; namespace "urn:multi2"; prefix mu; import lib { prefix lb; revision-date 2019-01-01; } import lib { prefix lc; } import lib { prefix la; revision-date 2020-02-02; } ` + multiBody + ` }`,
 	}
 	subsets := [][]string{
@@ -484,11 +484,13 @@ func main() {
 	}
 	// exhaustive family: two or three revisions of a library (each exporting a different grouping
 	// and typedef), users that import it with and without revision-date and a module that includes a
-	// submodule with two revisions; every load order x every position of an intermediate Process()
+	// submodule with two revisions, modules that import several revisions of the library at once (one import
+	// statement per revision and one without revision-date, different prefixes: judged per statement by
+	// multiOracle); every load order x every position of an intermediate Process()
 	famBatch, famIncr := family()
 	outsFB := rescorr.RunAll(famBatch, f)
 	outsFI := rescorr.RunAll(famIncr, f)
-	var famCompared int64
+	var famCompared, famMulti, famMultiBad int64
 	for j, io := range outsFI {
 		var bi int
 		fmt.Sscanf(io.Case.Extra["batch"], "%d", &bi)
@@ -502,7 +504,13 @@ func main() {
 			continue
 		}
 		famCompared++
+		if strings.Contains(strings.Join(io.Case.Names, " "), "multi") {
+			famMulti++
+		}
 		if why := multiOracle(io.Case, io.Go.Dump); why != "" {
+			if famMultiBad++; famMultiBad > 10 {
+				continue
+			}
 			res.AddDisagreement(lib.Disagreement{Kind: "spec", Input: io.Case, Go: lib.Project(io.Go.Dump, keys, true), SpecVerdict: "violates",
 				What: "C13 `an import with a revision-date denotes exactly that revision when it is loaded, an import without revision-date the latest` fails per import statement: " + why, Replay: io.Case})
 			continue
@@ -522,6 +530,7 @@ func main() {
 		}
 	}
 	res.Distribution["revision_family_histories"] = famCompared
+	res.Distribution["revision_family_histories(one module importing several revisions of one name)"] = famMulti
 	// several revisions of one OWNER module that include the same submodule: every revision's tree
 	// must hold the submodule's nodes, as the unsplit revisions do
 	ownerRevisions(f, res)
